@@ -135,7 +135,7 @@ def build_all(clean=False):
             for f in ("model.ml", "model.mli"):
                 shutil.copy(os.path.join(ext, f), ocdir)
             shutil.copy(os.path.join(VERIF, "ocaml", "modelrun.ml"), ocdir)
-            rc, o3 = sh("ocamlfind ocamlopt -O3 -w -a -package zarith -linkpkg model.mli model.ml modelrun.ml -o modelrun.tmp && mv modelrun.tmp modelrun",
+            rc, o3 = sh("ocamlfind ocamlopt -O3 -w -a -package zarith,str -linkpkg model.mli model.ml modelrun.ml -o modelrun.tmp && mv modelrun.tmp modelrun",
                         cwd=ocdir)
             out += o3
             if rc != 0:
